@@ -17,7 +17,7 @@ RULE = ('batches of 1-4 sentences mixing grammar-licensed derivations (covering 
         'functions return over the shipped seen-rule pairs, shipped unary tables and synthetic unary tables) with the '
         'failure placeholder obtained from a real failed parse; rendered in every format of the CLI choice lists of the '
         'language (read from depccg.argparse at run time; the two ccg2lambda formats need NLTK and are not rendered). '
-        'Oracle: no exception; the records of the parsed sentences in [A, FAILED, B] equal those in [A, B] up to sentence '
+        'Oracle: no exception; every line of the rendering of [A, B] appears, up to numbers, in that of [A, FAILED, B] (sentence '
         'numbering. non-trivial = a batch with a placeholder and a tree with a unary node; distinct by case digest')
 
 _formats = None
@@ -61,7 +61,10 @@ def cli_formats():
         buf = io.StringIO()
         with contextlib.redirect_stdout(buf), contextlib.redirect_stderr(buf):
             try:
-                A.parse_args(lambda a: None)
+                try:
+                    A.parse_args(lambda a: None)
+                except TypeError:
+                    A.parse_args()          # (a parse_args that hands the namespace back instead of calling a main)
             except SystemExit:
                 pass
     finally:
@@ -95,62 +98,13 @@ def placeholder(lang):
     return copy.deepcopy(_placeholder[lang])
 
 
-def records(fmt, text):
-    """split a rendering into per-sentence records with the sentence number removed"""
-    if fmt in ('auto', 'auto_extended', 'deriv', 'ptb', 'ja', 'conll'):
-        out = {}
-        cur = None
-        for line in text.split('\n'):
-            m = re.match(r'^(?:# )?ID=(\d+)(.*)$', line)
-            if m:
-                cur = int(m.group(1))
-                out.setdefault(cur, []).append('ID' + m.group(2))
-            elif cur is not None:
-                out[cur].append(line)
-        for k in out:
-            while out[k] and out[k][-1] == '':
-                out[k].pop()
-        return out
-    if fmt == 'json':
-        d = json.loads(text)
-        return {int(k): v for k, v in d.items()}
-    if fmt == 'xml':
-        from lxml import etree
-        root = etree.fromstring(text.encode('utf-8'))
-        out = {}
-        for ccg in root.xpath('ccg'):
-            s = int(ccg.get('sentence'))
-            ccg.attrib.pop('sentence')
-            ccg.tail = None
-            out.setdefault(s, []).append(etree.tostring(ccg, encoding='unicode'))
-        return out
-    if fmt == 'jigg_xml':
-        from lxml import etree
-        root = etree.fromstring(text.encode('utf-8'))
-        out = {}
-        for i, sent in enumerate(root.xpath('//sentence')):
-            sent.tail = None
-            # every identifier built from the sentence's position may differ (s3_1, s3_sp0, s3_ccg0, a bare s3);
-            # identifiers live in the reference attributes, token text is left alone
-            for el in sent.iter():
-                for k in ('id', 'child', 'terminal', 'root'):
-                    if el.get(k) is not None:
-                        el.set(k, re.sub(r'\bs%d(?=_|\b)' % i, 's#', el.get(k)))
-            out[i + 1] = etree.tostring(sent, encoding='unicode')
-        return out
-    if fmt == 'html':
-        parts = re.split(r'<p>ID=(\d+):', text)
-        out = {}
-        for k in range(1, len(parts) - 1, 2):
-            out[int(parts[k])] = parts[k + 1].split('</body>')[0].strip()
-        return out
-    if fmt == 'prolog':
-        parts = re.split(r'^ccg\((\d+),', text, flags=re.M)
-        out = {}
-        for k in range(1, len(parts) - 1, 2):
-            out.setdefault(int(parts[k]), []).append(parts[k + 1].strip())
-        return out
-    return None         # a format this harness has no record splitter for: it is rendered, its records are not compared
+def content_lines(text):
+    """multiset of the non-blank lines of a rendering with every run of digits replaced by '#': numbering of
+    sentences, ids and offsets derived from a sentence's position, and scores all disappear; what is left is the
+    content of the records, whatever the layout of the format"""
+    import collections
+    text = text.replace('><', '>\n<')           # (markup written without line breaks between elements)
+    return collections.Counter(re.sub(r'\d+', '#', ln.strip()) for ln in text.split('\n') if ln.strip())
 
 
 def build_batch(case):
@@ -202,16 +156,16 @@ def check_case(case, info=None):
                     ref = to_string(build_batch(parsed_only), format=fmt)
                 except Exception:
                     continue
-                a = records(fmt, text)
-                b = records(fmt, ref)
-                if a is None or b is None:
-                    continue
-                keep = [i + 1 for i, s in enumerate(case['batch']) if s != 'FAILED']
-                got = [a.get(i) for i in keep]
-                want = [b.get(j + 1) for j in range(len(keep))]
-                if got != want:
-                    bad(f'{fmt}/{system}/failed-sentence-disturbs-others',
-                        f'format {fmt}: the records of the parsed sentences differ when a failed sentence is in the batch')
+                # nothing of the parsed sentences is lost when a failed sentence stands among them: every line of the
+                # rendering of [A, B] appears, up to numbers, at least as often in the rendering of [A, FAILED, B]
+                # (formats that put a whole document on one or two lines are not compared)
+                if ref.count('\n') >= 3 * len(parsed_only['batch']):
+                    missing = content_lines(ref) - content_lines(text)
+                    if missing:
+                        ln = next(iter(missing))
+                        bad(f'{fmt}/{system}/failed-sentence-disturbs-others',
+                            f'format {fmt}: with a failed sentence in the batch the rendering lacks {sum(missing.values())} '
+                            f'line(s) of the parsed sentences, e.g. {ln[:120]!r}')
     finally:
         set_global_language_to('en')
     return fails
